@@ -1,13 +1,15 @@
 //! C13 native search (a bounded exploration of the real crate, run on every check): every zone made of the apex
-//! (SOA, NS) and a subset of ten other owner names -- ordinary names, a wildcard, two delegation points (one with a
+//! (SOA, NS) and a subset of eleven other owner names -- ordinary names, a wildcard, two delegation points (one with a
 //! DS), glue and deeper names below them, names that create empty non-terminals, names outside the zone before and
-//! after it -- goes through `generate_nsecs` and `generate_nsec3s` (1024 zones, both DNSKEY settings). An independent
+//! after it -- goes through `generate_nsecs` and `generate_nsec3s` (2048 zones, both DNSKEY settings). An independent
 //! description of the result is checked: NSEC -- one record per owner name in the zone that is not below a delegation
 //! point (declaratively: no other name of the zone with an NS RRset is a proper suffix), in canonical order, each
 //! pointing to the next and the last to the apex, the bitmap exactly RRSIG, NSEC, the types at the name (NS and DS
 //! only at a delegation point) and DNSKEY at the apex when configured, TTL = min(SOA MINIMUM, SOA TTL), class IN;
 //! NSEC3 -- one record per such name and per empty non-terminal above one, owner = hash label under the apex, sorted
-//! by hash, next-hashed-owner = the hash of the next record (the last one wraps around), no NSEC bit, an empty bitmap
+//! by hash (the hash label is compared with an independent RFC 5155 section 5 computation: iterated SHA-1 of the
+//! lower-cased wire name and the salt, Base32hex), next-hashed-owner = the hash of the next record (the last one wraps
+//! around), no NSEC bit, an empty bitmap
 //! exactly at empty non-terminals, NS (plus DS and RRSIG when there is a DS) at delegation points, types + RRSIG
 //! elsewhere.
 use std::collections::BTreeSet;
@@ -15,7 +17,7 @@ use std::str::FromStr;
 
 use bytes::Bytes;
 use domain::base::iana::{Class, Rtype};
-use domain::base::name::Name;
+use domain::base::name::{Name, ToLabelIter};
 use domain::base::{CanonicalOrd, Record, Serial, Ttl};
 use domain::dnssec::sign::denial::nsec::{generate_nsecs, GenerateNsecConfig};
 use domain::dnssec::sign::denial::nsec3::{generate_nsec3s, mk_hashed_nsec3_owner_name, GenerateNsec3Config};
@@ -38,6 +40,14 @@ fn rec(owner: &str, ttl: u32, data: D) -> Record<N, D> {
 fn a() -> D {
     ZoneRecordData::A(A::from_octets(192, 0, 2, 1))
 }
+fn txt() -> D {
+    ZoneRecordData::Txt(domain::rdata::Txt::build_from_slice(b"child side").unwrap())
+}
+/// the SOA of a child zone as it may appear (occluded) at a delegation point of the parent's zone file; same MINIMUM
+/// and TTL as the apex SOA of the generated zones
+fn child_soa() -> D {
+    ZoneRecordData::Soa(Soa::new(n("ns.sdeleg.example."), n("admin.sdeleg.example."), Serial(7), Ttl::from_secs(1), Ttl::from_secs(2), Ttl::from_secs(3), Ttl::from_secs(1800)))
+}
 fn ns() -> D {
     ZoneRecordData::Ns(Ns::new(n("ns.elsewhere.")))
 }
@@ -46,6 +56,36 @@ fn ds() -> D {
         Ds::new(1, domain::base::iana::SecurityAlgorithm::ED25519, domain::base::iana::DigestAlgorithm::SHA256, Bytes::from_static(&[7; 32]))
             .unwrap(),
     )
+}
+/// RFC 5155 section 5: IH(salt, x, 0) = H(x || salt), IH(salt, x, k) = H(IH(salt, x, k-1) || salt), over the owner name
+/// in canonical (lower-cased, uncompressed) wire form, H = SHA-1; written in unpadded Base32hex
+fn independent_nsec3_label(name: &N, iterations: u16, salt: &[u8]) -> String {
+    let mut wire: Vec<u8> = Vec::new();
+    for label in name.iter_labels() {
+        wire.push(label.len() as u8);
+        wire.extend(label.as_slice().iter().map(|c| c.to_ascii_lowercase()));
+    }
+    let mut h: Vec<u8> = wire;
+    for _ in 0..=iterations {
+        let mut ctx = ring::digest::Context::new(&ring::digest::SHA1_FOR_LEGACY_USE_ONLY);
+        ctx.update(&h);
+        ctx.update(salt);
+        h = ctx.finish().as_ref().to_vec();
+    }
+    const ALPHABET: &[u8; 32] = b"0123456789abcdefghijklmnopqrstuv";
+    let (mut out, mut acc, mut bits) = (String::new(), 0u32, 0u32);
+    for b in h {
+        acc = (acc << 8) | b as u32;
+        bits += 8;
+        while bits >= 5 {
+            out.push(ALPHABET[((acc >> (bits - 5)) & 31) as usize] as char);
+            bits -= 5;
+        }
+    }
+    if bits > 0 {
+        out.push(ALPHABET[((acc << (5 - bits)) & 31) as usize] as char);
+    }
+    out
 }
 /// proper suffix test on label sequences, ignoring case
 fn below(name: &N, anc: &N) -> bool {
@@ -63,14 +103,15 @@ fn main() {
     let optional: Vec<(&str, Vec<D>)> = vec![
         ("a.example.", vec![a()]),
         ("*.w.example.", vec![a()]),                 // w.example. becomes an empty non-terminal
-        ("deleg.example.", vec![ns()]),              // insecure delegation
+        ("deleg.example.", vec![ns(), txt()]),       // insecure delegation that also holds a child-side type
         ("ns.deleg.example.", vec![a()]),            // glue
         ("x.y.ns.deleg.example.", vec![a()]),        // deeper below the cut
-        ("sdeleg.example.", vec![ns(), ds()]),       // secure delegation
+        ("sdeleg.example.", vec![ns(), ds(), child_soa()]), // secure delegation; the zone file also carries the child's SOA
         ("www.sdeleg.example.", vec![a()]),          // occluded
         ("p.q.r.example.", vec![a()]),               // two empty non-terminals
         ("Z.example.", vec![a(), ZoneRecordData::Ns(Ns::new(n("a.example.")))]), // a delegation point with an A record (occluded data at the cut), upper case
         ("zz.z.example.", vec![a()]),                // below it
+        ("c.b.a.example.", vec![a()]),               // an empty non-terminal below a name that may own records
     ];
     let outside = [("a.aaa.", a()), ("example.org.", a()), ("zzz.", a())];
     let mut zones = 0u32;
@@ -85,7 +126,10 @@ fn main() {
             for (i, (owner, datas)) in optional.iter().enumerate() {
                 if mask & (1 << i) != 0 {
                     for d in datas {
-                        recs.insert(rec(owner, 3600, d.clone())).unwrap();
+                        // (the child's SOA gets the TTL of the apex SOA: what an occluded SOA with other values does
+                        // to the TTL of the chain is not judged here)
+                        let ttl = if matches!(d, ZoneRecordData::Soa(_)) { soa_ttl } else { 3600 };
+                        recs.insert(rec(owner, ttl, d.clone())).unwrap();
                     }
                     present.push((n(owner), datas.iter().map(|d| domain::base::rdata::RecordData::rtype(d)).collect()));
                 }
@@ -174,6 +218,10 @@ fn main() {
                 .iter()
                 .map(|(o, t)| {
                     let h: N = mk_hashed_nsec3_owner_name::<N, Bytes, Bytes>(o, params.hash_algorithm(), params.iterations(), params.salt(), &apex).unwrap();
+                    let own = independent_nsec3_label(o, params.iterations(), params.salt().as_slice());
+                    if h.first().to_string().to_ascii_lowercase() != own {
+                        fail(format!("{}: the NSEC3 owner label for {} is {} (independent iterated SHA-1: {})", desc, o, h.first(), own));
+                    }
                     (h, o.clone(), t.clone())
                 })
                 .collect();
